@@ -160,7 +160,9 @@ class DirGen:
             {"name": "label", "args": [], "type": N("S1"), "dirs": usesr(p=0.5), "res": {"k": "parentKey"}}]}
         o2["interfaces"] = ["I1"]
         o2["fields"][1]["type"] = N("S1")
-        self.abstracts = [{"name": "I1", "dirs": uses(p=0.8), "fields": [("marks", "String"), ("label", "S1")]}]
+        self.abstracts = [{"name": "I1", "dirs": uses(p=0.8), "fields": [("marks", "String"), ("label", "S1")]},
+                          # a union of the same two objects: its own hooks run before the runtime type's, as for the interface
+                          {"name": "U1", "dirs": uses(p=0.8), "fields": [("marks", "String"), ("label", "S1")], "members": ["O2", "O3"]}]
         i1v = lambda: r.choice([None, {"d": [["_typename", "O2"], ["label", "il"], ["kind", "A"]]}, {"d": [["_typename", "O3"], ["label", "jl"]]}])
         o1 = {"name": "O1", "dirs": uses(p=0.6), "fields": [
             {"name": "argsSeen", "args": [], "type": N("String"), "dirs": [], "res": {"k": "parentKey"}},
@@ -170,10 +172,11 @@ class DirGen:
             {"name": "child", "args": [], "type": N("O2"), "dirs": usesr(p=0.5), "res": {"k": "parentKey"}},
             {"name": "children", "args": [], "type": L(N("O2")), "dirs": uses(p=0.3), "res": {"k": "parentKey"}},
             {"name": "iface", "args": [], "type": N("I1"), "dirs": uses(p=0.4), "res": {"k": "parentKey"}},
+            {"name": "uni", "args": [], "type": N("U1"), "dirs": uses(p=0.4), "res": {"k": "parentKey"}},
             {"name": "echo", "args": args(r.randint(1, 2)), "type": N(r.choice(["String", "S2"])), "dirs": usesr(p=0.5), "res": {"k": "renderArgs"}}]}
         def o1v():
             return {"d": [["name", r.choice(["n1", "n2", None])], ["kinds", r.choice([["A", "B"], [], None, ["C", None]])],
-                          ["child", r.choice([o2v(), None])], ["children", [o2v() for _ in range(r.randint(0, 2))]], ["iface", i1v()]]}
+                          ["child", r.choice([o2v(), None])], ["children", [o2v() for _ in range(r.randint(0, 2))]], ["iface", i1v()], ["uni", i1v()]]}
         qf = []
         for k in range(r.randint(2, 4)):
             qf.append({"name": f"f{k}", "args": args(r.randint(1, 3)), "type": N(r.choice(["String", "S1", "S2"])), "dirs": uses(p=0.6), "res": {"k": "renderArgs"}})
@@ -183,6 +186,7 @@ class DirGen:
         qf.append({"name": "es", "args": [], "type": L(N("E1")), "dirs": uses(logonly, p=0.5), "res": {"k": "const", "v": [r.choice(["A", "B", "C"]) for _ in range(r.randint(0, 3))]}})
         qf.append({"name": "s", "args": [], "type": N("S1"), "dirs": usesr(p=0.5), "res": {"k": "const", "v": r.choice(["plain", None])}})
         qf.append({"name": "ifaces", "args": [], "type": L(N("I1")), "dirs": usesr(p=0.5), "res": {"k": "const", "v": [i1v() for _ in range(r.randint(1, 3))]}})
+        qf.append({"name": "unis", "args": [], "type": L(N("U1")), "dirs": usesr(p=0.5), "res": {"k": "const", "v": [i1v() for _ in range(r.randint(1, 3))]}})
         self.objs = [{"name": "Query", "dirs": [], "fields": qf}, o1, o2, o3]
 
     def tdef(self, n):
@@ -252,6 +256,8 @@ class DirGen:
             impl = (" implements " + " & ".join(o["interfaces"])) if o.get("interfaces") else ""
             out.append(f"type {o['name']}{impl}{DX('type', o['name'], o['dirs'])} {{\n" + "\n".join(lines) + "\n}")
         for a in self.abstracts:
+            if a.get("members"):
+                out.append(f"union {a['name']}{DX('union', a['name'], a['dirs'])} = " + " | ".join(a["members"])); continue
             out.append(f"interface {a['name']}{DX('interface', a['name'], a['dirs'])} {{\n" + "\n".join(f"  {fn}: {ft}" for fn, ft in a["fields"]) + "\n}")
         return "\n".join(out + ext)
 
@@ -332,7 +338,11 @@ class ReqGen:
         for a in f["args"]:
             if is_nn(a["type"]) and not a["default"] or r.random() < 0.7:
                 args.append([a["name"], self.literal(a["type"])])
-        return {"key": f["name"], "name": f["name"], "args": args, "dirs": self.quses(self.qnames(f)), "sub": self.sub_for(f, depth)}
+        return {"key": f["name"], "name": f["name"], "args": args, "dirs": self.quses(self.qnames(f)), "sub": self.sub_for(f, depth), **self.uni(f)}
+
+    def uni(self, f):
+        ab = next((a for a in self.g.abstracts if a["name"] == base(f["type"])), None)
+        return {"members": ab["members"]} if ab and ab.get("members") else {}
 
     def sub_for(self, f, depth):
         b = base(f["type"])
@@ -356,9 +366,9 @@ class ReqGen:
         if r.random() < 0.3:
             s = r.choice(out)
             f = next(x for x in od["fields"] if x["name"] == s["name"])
-            share = bool(s["sub"]) and not s.get("frag") and r.random() < 0.5
+            share = bool(s["sub"]) and not s.get("frag") and not s.get("members") and r.random() < 0.5
             again = {"key": s["key"], "name": s["name"], "args": s["args"], "dirs": self.quses(self.qnames(f), avoid=[u["name"] for u in s["dirs"]]),
-                     "sub": [] if share else self.sub_for(f, depth)}
+                     "sub": [] if share else self.sub_for(f, depth), **self.uni(f)}
             if share:
                 # both occurrences spread the SAME named fragment: it is collected once for the merged field, so the fields
                 # inside it (and their query-side directives) count once
@@ -375,6 +385,8 @@ class ReqGen:
         def S(sel):
             a = ("(" + ", ".join(f"{k}: {print_value(v)}" for k, v in sel["args"]) + ")") if sel["args"] else ""
             sub = (" { " + " ".join(S(x) for x in sel["sub"]) + " }") if sel["sub"] else ""
+            # a union has no fields of its own: the same selection once per member type (one of them applies at run time)
+            if sel["sub"] and sel.get("members"): sub = " { " + " ".join(f"... on {mt}{sub}" for mt in sel["members"]) + " }"
             if sel.get("frag"): sub = " { ..." + sel["frag"] + " }"
             return f"{sel['name']}{a}{D(sel['dirs'])}{sub}"
         vd = ""
@@ -439,12 +451,42 @@ type Query { s: Sb sl: [Sb!] z: Sz f: Sf! }"""
             async def r(parent, args, ctx, info): return val
             return r
         Resolver(f"Query.{fn}", schema_name=name)(mk())
+    # ... and hooks that REPLACE a null: the type-level output hooks govern every value completed for their type, a null
+    # under a non-null wrapper included (`Impl/Directives.lean` `complete`: the non-null check comes after the inner
+    # completion, theorem `nonNull_check_after_type_hooks`); each such hook runs exactly once per value
+    nulls_seen = []
+    class Fill:
+        async def on_pre_output_coercion(self, directive_args, next_directive, value, ctx, info):
+            nulls_seen.append(repr(value))
+            r = await next_directive(value, ctx, info)
+            return "filled" if r is None else r
+    Directive("fill", schema_name=name)(Fill())
+    for sn in ("Sn",):
+        Scalar(sn, schema_name=name)(er.CustomScalar())
+    sdl += """
+directive @fill on SCALAR | ENUM | OBJECT
+scalar Sn @fill
+enum En @fill { filled other }
+type On @fill { v: Sn! }
+extend type Query { n: Sn! nl: [Sn!] nn: Sn en: En! o: On! ol: [On!]! }"""
+    for fn, val in (("n", None), ("nl", ["a", None]), ("nn", None), ("en", None), ("o", {"v": None}), ("ol", [{"v": "x"}, {"v": None}])):
+        def mk(val=val):
+            async def r(parent, args, ctx, info): return val
+            return r
+        Resolver(f"Query.{fn}", schema_name=name)(mk())
     eng = await create_engine(sdl, schema_name=name)
     resp = await eng.execute("{ s sl z f }")
     exp = {"s": "", "sl": ["", ""], "z": 0, "f": False}
     if resp.get("errors") or resp.get("data") != exp:
         return {"what": [f"output hooks returning a falsy result: the scalar's coercion did not receive the hook's result (answer {json.dumps(resp, default=str)[:300]}, expected data {json.dumps(exp)})"],
                 "query": "{ s sl z f }", "sdl": sdl, "hook_results_seen": seen[:12]}
+    q2 = "{ n nl nn en o { v } ol { v } }"
+    resp = await eng.execute(q2)
+    exp = {"n": "filled", "nl": ["a", "filled"], "nn": "filled", "en": "filled", "o": {"v": "filled"}, "ol": [{"v": "x"}, {"v": "filled"}]}
+    # invocations: n, nl x2, nn, en, o (object) + o.v, ol x2 (objects) + 2 x v  = 11, of which 6 see null
+    if resp.get("errors") or resp.get("data") != exp or len(nulls_seen) != 11 or nulls_seen.count("None") != 6:
+        return {"what": [f"type-level output hooks and null results: every value completed for a hooked type - a null below a non-null wrapper included - goes through the type's output hooks exactly once, and the next stage sees what they return (answer {json.dumps(resp, default=str)[:400]}, expected data {json.dumps(exp)}; the hooks saw {len(nulls_seen)} values, {nulls_seen.count('None')} of them null, expected 11 and 6)"],
+                "query": q2, "sdl": sdl, "hook_values_seen": nulls_seen[:20]}
     return None
 
 async def explore(tier, seed, m):
@@ -543,7 +585,7 @@ if __name__ == "__main__":
                      "first_disagreement": st["disagreements"][:1], "requests_checked": st["evaluations"]}, no_input=True)
     cov = fw.proof_coverage(b, {
         "evaluations": st["evaluations"], "distinct_nontrivial": len(st["nontrivial"]),
-        "rule": "generated schemas decorated with 0-3 tagging directives (two marking all hooks, one marking a random subset of hooks, two log-only; tag argument literal or defaulted) on scalars, enums (log-only at type level), enum values, input objects, input fields, arguments, fields, object types and interfaces (abstract-type hooks before the runtime type's hooks); requests with arguments as literals, whole variables, variables nested in lists / input objects, omitted (SDL defaults), nulls, single values for lists; query-side field directives with literal / variable / defaulted tags; repeated response keys with different directives; compared with the Lean model: `data` (tags are non-commuting: nesting and stage order are visible) and the multiset of hook invocations (kind, directive, coerced tag, phase, value seen); non-trivial = at least two hook invocations",
+        "rule": "generated schemas decorated with 0-3 tagging directives (two marking all hooks, one marking a random subset of hooks, two log-only; tag argument literal or defaulted) on scalars, enums (log-only at type level), enum values, input objects, input fields, arguments, fields, object types, interfaces and unions (abstract-type hooks before the runtime type's hooks; union selections through one inline fragment per member); requests with arguments as literals, whole variables, variables nested in lists / input objects, omitted (SDL defaults), nulls, single values for lists; query-side field directives with literal / variable / defaulted tags; repeated response keys with different directives; compared with the Lean model: `data` (tags are non-commuting: nesting and stage order are visible) and the multiset of hook invocations (kind, directive, coerced tag, phase, value seen); non-trivial = at least two hook invocations",
         "hook_invocations_by_kind": dict(st["hook_calls"]), "deepest_hook_nesting": st["max_nesting"], "requests_with_variables": st["with_variables"],
         "outside_model_universe": st["unsupported"], "documents_repeated_with_other_variables": st.get("repeated_documents", 0), "requests_with_engine_errors": st["engine_errors"],
         "correspondence": {"disagreements": len(st["disagreements"])}, "problems": len(st["problems"]), "samples": st["samples"] or [{"note": "none"}]})
